@@ -96,6 +96,7 @@ REGISTRY = {
         "trust": "The fault menu above is HSMS-SS; SECS-I generations are covered by TestC09Secs1 (a send in flight while the line dies at a drawn protocol point). While the peer's window is closed the program is restricted to one writing goroutine (testing/synctest cannot advance time while a goroutine waits on the write mutex).",
         "technique": "property-based testing (rapid): generated fault plans x send programs on scripted connections in testing/synctest, generation-window invariant over the wire history",
         "tests": [
+            {"name": "TestC09StalledWriteEnd", "shards": 4, "shards_thorough": 8, "crash_is_violation": True},
             {"name": "TestC09LateAccept", "shards": 2, "shards_thorough": 8, "crash_is_violation": True},
             {"name": "TestC09Generations", "shards": 8, "shards_thorough": 16},
             {"name": "TestC09Secs1", "shards": 4, "shards_thorough": 16, "crash_is_violation": True},
